@@ -25,6 +25,21 @@ def factory_order():
     for node in ast.walk(tree):
         if isinstance(node, ast.For) and isinstance(node.iter, ast.List):
             return [getattr(B, e.id) for e in node.iter.elts]
+    # the list may be bound to a name first: the first literal list / tuple of >= 5 class names
+    for node in ast.walk(tree):
+        if isinstance(node, (ast.List, ast.Tuple)) and len(node.elts) >= 5 and all(
+                isinstance(e, ast.Name) and isinstance(getattr(B, e.id, None), type) for e in node.elts):
+            return [getattr(B, e.id) for e in node.elts]
+    # ... or be a module-level constant that branch_factory refers to by name
+    used = {n.id for n in ast.walk(tree) if isinstance(n, ast.Name)}
+    mod = ast.parse(inspect.getsource(B))
+    for node in mod.body:
+        if isinstance(node, ast.Assign) and isinstance(node.value, (ast.List, ast.Tuple)) and \
+                any(isinstance(t, ast.Name) and t.id in used for t in node.targets):
+            elts = node.value.elts
+            if len(elts) >= 5 and all(isinstance(e, ast.Name) and isinstance(getattr(B, e.id, None), type)
+                                      for e in elts):
+                return [getattr(B, e.id) for e in elts]
     raise R.Unsupported('cannot read the class list of branch_factory')
 
 
@@ -110,8 +125,17 @@ def roundtrip_concrete(pr, ver, src):
     return ok
 
 
+def classify_after(first, name):
+    """Classification of `name` right after `first` was classified (same process)."""
+    classify(first)
+    return classify(name)
+
+
 def replay(data):
     kind = data['kind']
+    if kind == 'stateful':
+        alone = classify(data['name'])
+        return classify_after(data['first'], data['name']) != alone or alone != data['expected']
     if kind == 'classification':
         return classify(data['name']) != data['expected']
     if kind == 'roundtrip':
@@ -123,6 +147,28 @@ def replay(data):
         from bert_e.workflow.gitwaterflow import branches as B
         return getattr(B, data['cls']).can_be_destination != data['expected']
     return False
+
+
+def stateless_part(rep, q, Limpl, names):
+    """Classification is a function of the name alone: every solver-drawn member of every
+    class is classified the same whatever name was looked up just before (a cache or a
+    reordering inside branch_factory must not change the answer)."""
+    k = 2 if rep.tier == 'quick' else 6
+    members = {n: q.members(Limpl[n], k, maxlen=28) for n in names}
+    rejected = ['master', 'w/x', 'release', 'q/w/1/x/y']
+    for n in names:
+        for m in members[n]:
+            for prev_kind in names + [None]:
+                prevs = members[prev_kind][:1] if prev_kind else rejected[:1]
+                for first in prevs:
+                    rep.transitions += 1
+                    got = classify_after(first, m)
+                    if got != n:
+                        rep.cexs.append(Cex('C18', 'classification depends on the name looked up before',
+                                            dict(kind='stateful', first=first, name=m, expected=n), True,
+                                            'after %r, %r is classified %s instead of %s' % (first, m, got, n)))
+                        return
+                    rep.validated += 1
 
 
 def check(rep):
@@ -161,6 +207,7 @@ def check(rep):
         Limpl[n] = z3.Intersect(L[n], z3.Complement(earlier))
         earlier = z3.Union(earlier, L[n])
     nq = 0
+    stateless_part(rep, q, Limpl, names)
     # 1. classification == grammar, per kind (two inclusions each)
     for n in names:
         ok, w = q.equal(Limpl[n], S[n], label='classify ' + n)
